@@ -863,6 +863,10 @@ def order_rule(r, f, owner, field, why):
                         bad_.append("computed value (%s)" % rv["k"])
                 elif d[0] == "call":
                     for x in [d[2]]:
+                        if x.path == "core::iter::traits::iterator::Iterator::next":
+                            # an element of an earlier iteration: what is looped over here is made from one element (the
+                            # bytes of a char, say), it is not the collection
+                            continue
                         if x.path in ORDER_KEEPING and x.args:
                             calls_.append(x.path.rsplit("::", 1)[1])
                             pa = op_place(x.args[0])
